@@ -320,6 +320,44 @@ func wasmScenarios(c *ctx) []wasmEvent {
 			}
 		}
 	}
+	// fractional instants are truncated, not rounded: .5 and .75 in the last second of a step
+	for _, per := range []uint64{1, 30, 60} {
+		k, sec := g.key()
+		for _, step := range []uint64{3, 1 << 20} {
+			for _, fr := range []string{"5", "75", "25"} {
+				base, st, kk, pp := step*per+per-1, step, k, per
+				g.add(fmt.Sprintf("C20/frac/g/p%d/n%d/f%s", per, step, fr), "generateTOTP", "wellformed", false,
+					[]JArg{jStr(sec), jFrac(base, fr), jStr("6"), jStr("SHA1"), jNum(pp)}, func(e *wasmEvent) {
+						e.Step0 = W64(st)
+						e.Orc = allAlgWindow(kk, st, 0)
+					})
+				g.add(fmt.Sprintf("C20/frac/v/p%d/n%d/f%s", per, step, fr), "validateTOTP", "wellformed", false,
+					[]JArg{jStr(sec), jStr(refHOTP(kk, st, 6, 0)), jFrac(base, fr), jStr("6"), jStr("SHA1"), jNum(0), jNum(pp)}, func(e *wasmEvent) {
+						e.Step0 = W64(st)
+						e.Orc = allAlgWindow(kk, st, margin)
+					})
+			}
+		}
+	}
+	// the same submission with a shrinking and growing window, back to back: each call is judged on its own skew
+	for i := 0; i < c.n(6, 60); i++ {
+		k, sec := g.key()
+		ctr := uint64(50 + c.rng.Intn(1<<20))
+		dist := uint64(1 + i%4)
+		codeH := refHOTP(k, ctr+dist, 6, 0)
+		ts := (ctr + 40) * 30
+		codeT := refHOTP(k, ts/30+dist, 8, 1)
+		for j, sk := range []uint64{10, dist, dist - 1, 0, dist, 10, dist - 1} {
+			kk, cc, ss, tt := k, ctr, sk, ts
+			g.add(fmt.Sprintf("C20/sibskew/h/%d/%d", i, j), "validateHOTP", "wellformed", false,
+				[]JArg{jStr(sec), jStr(codeH), jNum(ctr), jStr("6"), jStr("SHA1"), jNum(sk)}, func(e *wasmEvent) { e.Orc = allAlgWindow(kk, cc, int(ss)+margin) })
+			g.add(fmt.Sprintf("C20/sibskew/t/%d/%d", i, j), "validateTOTP", "wellformed", false,
+				[]JArg{jStr(sec), jStr(codeT), jNum(ts), jStr("8"), jStr("SHA256"), jNum(sk), jNum(30)}, func(e *wasmEvent) {
+					e.Step0 = W64(tt / 30)
+					e.Orc = allAlgWindow(kk, tt/30, int(ss)+margin)
+				})
+		}
+	}
 	// malformed calls: every argument position x every JS type, too few / too many arguments; each followed by a probe
 	bads := []JArg{jOther("undefined"), jOther("null"), jOther("nan"), jNeg("-1"), jNeg("-7"), jHuge("1e300"), jOther("inf"), jOther("boolean"), jOther("object"), jOther("array"), jStr(""), jOther("function")}
 	id := 0
